@@ -24,6 +24,12 @@ def cfg : Cfg :=
     prioGet := ⟨Gen.C18.getpriorityClearsErrno, ErrTest.ofCode Gen.C18.getpriorityErrTest⟩
     ioprioGet := ⟨Gen.C18.ioprioGetClearsErrno, ErrTest.ofCode Gen.C18.ioprioGetErrTest⟩
     affGet := ⟨Gen.C18.affinityGetClearsErrno, ErrTest.ofCode Gen.C18.affinityGetErrTest⟩
-    einvalValueError := Gen.C18.affinityEinvalRaisesValueError }
+    einvalValueError := Gen.C18.affinityEinvalRaisesValueError
+    overflowValueError := Gen.C18.affinityOverflowRaisesValueError
+    setPrioChecks := Gen.C18.setpriorityChecksRetval
+    ioprioSetChecks := Gen.C18.ioprioSetChecksRetval
+    affSetChecks := Gen.C18.affinitySetChecksRetval
+    affLoop := ⟨Gen.C18.affinityGetInitBits, Gen.C18.affinityGetRetryTest, Gen.C18.affinityGetGrowth.1,
+      Gen.C18.affinityGetGrowth.2⟩ }
 
 end Psutil.C18
